@@ -8,6 +8,7 @@ import (
 	"strconv"
 	"strings"
 	"sync"
+	"time"
 
 	"github.com/bolkedebruin/rdpgw/cmd/rdpgw/identity"
 	"github.com/bolkedebruin/rdpgw/cmd/rdpgw/protocol"
@@ -220,5 +221,176 @@ func streamC06Proc(env *runEnv) {
 		res := e.runProcess(cfg, items)
 		env.count("c06proc.runs")
 		env.emit("procrelay", cfg.bits(), redirBits(cfg.redir), strconv.Itoa(cfg.idle), e.live(), itemsString(items), res.obs)
+	}
+}
+
+// ---------------------------------------------------------------- C06 through the real transports
+//
+// What the property says about volume and boundaries at the gateway level: the
+// largest DATA packets a client can send (the 16-bit length field's maximum, in one
+// websocket message), a bulk upload that is followed at once by the end of the
+// channel (every byte written before the close must reach the host), and, in the
+// thorough tier, a host that streams to a legacy client which stops reading for
+// longer than any write deadline. The streams are too large for the model runner;
+// the comparison of what was sent with what arrived is done here ("exact" kind).
+func init() { streams["c06gw"] = streamC06Gw }
+
+func streamC06Gw(env *runEnv) {
+	r := rand.New(rand.NewSource(env.seed + 66))
+	srv := newL2Server(false, 0)
+	defer srv.close()
+	setup := func(c tclient, host string, port int, legacy bool) bool {
+		for _, p := range [][]byte{
+			packet(ptHandshake, handshakeBody(1, 0, 0, 0)),
+			packet(ptTunnelCreate, tunnelCreateBody(0, "", false)),
+			packet(ptTunnelAuth, tunnelAuthBody("pc")),
+			packet(ptChannelCreate, channelCreateBody(host, port)),
+		} {
+			if c.send(p) != nil {
+				return false
+			}
+			if legacy {
+				time.Sleep(15 * time.Millisecond)
+			}
+			if _, err := c.recv(3 * time.Second); err != nil {
+				return false
+			}
+		}
+		return true
+	}
+	n := 0
+	// (a) maximal DATA packets in one websocket message
+	for _, size := range []int{65526, 65527, 65528, 65534, 65535} {
+		n++
+		b := newTagBackend(nil)
+		host, port := splitHostPort(b.addr)
+		verdict := "setup-failed"
+		if c, err := openTunnel(srv.inst, tunnelScript{transport: "ws", id: fmt.Sprintf("{c06gw-%d-%d}", env.seed, n)}); err == nil {
+			if setup(c, host, port, false) {
+				pre, big, post := []byte("<before>"), randBytes(r, size), []byte("<after>")
+				c.send(packet(ptData, dataBody(pre)))
+				c.send(packet(ptData, dataBody(big)))
+				c.send(packet(ptData, dataBody(post)))
+				want := cat(pre, big, post)
+				verdict = waitHostBytes(b, want, 5*time.Second)
+			}
+			c.close()
+		}
+		env.count("c06gw.maxpacket." + verdict)
+		env.emit("exact", fmt.Sprintf("ws-data-packet-of-%d-bytes", size), verdict)
+		b.close()
+	}
+	// (b) bulk upload followed at once by the end of the channel
+	for _, tr := range []string{"ws", "legacy"} {
+		for _, end := range []string{"close-channel", "disconnect"} {
+			n++
+			b := newTagBackend(nil)
+			b.slowReader = 200 * time.Microsecond // the host does not drain its socket instantly
+			host, port := splitHostPort(b.addr)
+			total := 6 << 20
+			if env.thorough() {
+				total = 16 << 20
+			}
+			if tr == "legacy" {
+				// one packet per chunk read: the legacy client has to pace its chunks (packets that share a
+				// read are C08's known finding), so its upload is small
+				total = 160000
+			}
+			verdict := "setup-failed"
+			if c, err := openTunnel(srv.inst, tunnelScript{transport: tr, id: fmt.Sprintf("{c06gw-%d-%d}", env.seed, n)}); err == nil {
+				if setup(c, host, port, tr == "legacy") {
+					stream := randBytes(r, total)
+					for off := 0; off < len(stream); off += 4000 {
+						e := off + 4000
+						if e > len(stream) {
+							e = len(stream)
+						}
+						if c.send(packet(ptData, dataBody(stream[off:e]))) != nil {
+							break
+						}
+						if tr == "legacy" {
+							time.Sleep(15 * time.Millisecond)
+						}
+					}
+					if end == "close-channel" {
+						c.send(packet(ptCloseChannel, nil))
+					} else {
+						time.Sleep(300 * time.Millisecond) // the packets are in the gateway's hands; then the client goes away
+					}
+					if end == "disconnect" {
+						c.close()
+					}
+					verdict = waitHostBytes(b, stream, 20*time.Second)
+				}
+				c.close()
+			}
+			env.count("c06gw.upload." + verdict)
+			env.emit("exact", fmt.Sprintf("upload-%s-%d-bytes-then-%s", tr, total, end), verdict)
+			b.close()
+		}
+	}
+	// (c) thorough: a legacy client that stops reading for 7 s while its host streams
+	if env.thorough() {
+		n++
+		tag := fmt.Sprintf("<stall-%d>", env.seed)
+		b := newTagBackend([]byte(strings.Repeat(tag, (24<<20)/len(tag))))
+		b.piece = 65536
+		host, port := splitHostPort(b.addr)
+		verdict := "setup-failed"
+		if c, err := openTunnel(srv.inst, tunnelScript{transport: "legacy", id: fmt.Sprintf("{c06gw-%d-%d}", env.seed, n)}); err == nil {
+			if setup(c, host, port, true) {
+				got := 0
+				verdict = "exact"
+				stalled := false
+				for got < len(b.sends) {
+					m, err := c.recv(15 * time.Second)
+					if err != nil {
+						verdict = fmt.Sprintf("stream-ended-after-%d-of-%d", got, len(b.sends))
+						break
+					}
+					if len(m) < 10 || int(m[0])|int(m[1])<<8 != ptData || int(m[8])|int(m[9])<<8 != len(m)-10 {
+						verdict = "malformed-data-packet"
+						break
+					}
+					pl := m[10:]
+					if got+len(pl) > len(b.sends) || string(b.sends[got:got+len(pl)]) != string(pl) {
+						verdict = fmt.Sprintf("bytes-differ-at-%d", got)
+						break
+					}
+					got += len(pl)
+					if !stalled && got > 4<<20 {
+						stalled = true
+						time.Sleep(7 * time.Second)
+					}
+				}
+			}
+			c.close()
+		}
+		env.count("c06gw.stall." + verdict)
+		env.emit("exact", "legacy-client-stalls-7s-while-host-streams-24MiB", verdict)
+		b.close()
+	}
+}
+
+// waitHostBytes waits until the backend has seen the end of its connection (or the time is up)
+// and compares what it received with what was sent.
+func waitHostBytes(b *tagBackend, want []byte, max time.Duration) string {
+	dl := time.Now().Add(max)
+	for time.Now().Before(dl) {
+		_, got, eof := b.snapshot()
+		if len(got) >= len(want) || eof {
+			time.Sleep(50 * time.Millisecond)
+			break
+		}
+		time.Sleep(20 * time.Millisecond)
+	}
+	_, got, _ := b.snapshot()
+	switch {
+	case string(got) == string(want):
+		return "exact"
+	case len(got) < len(want) && string(want[:len(got)]) == string(got):
+		return fmt.Sprintf("host-received-only-%d-of-%d-bytes", len(got), len(want))
+	default:
+		return fmt.Sprintf("host-received-other-bytes-(%d-for-%d)", len(got), len(want))
 	}
 }
